@@ -125,7 +125,7 @@ func ruleC05(c *Ctx) {
 	rv := c.Func("encoding/blockchain", "ReadVarstr31")
 	c.RequireGuard("guard", c.ScopeIf(rv, "non-empty string", 1, callsKey("encoding/blockchain.ReadVarint31"), func(v ssa.Value) bool { k, ok := v.(*ssa.Const); return ok && k.Value != nil && k.Value.ExactString() == "0" }), "string length bounded by the remaining input", readsField("encoding/blockchain.Reader", "buf"), callsKey("builtin:len"))
 	for _, dm := range []*ssa.Function{c.Func("netsync/chainmgr", "decodeMessage"), c.Func("netsync/consensusmgr", "decodeMessage")} {
-		c.RequireGuard("guard", c.ScopeFunc(dm), "empty message rejected", callsKey("builtin:len"), isParam("bz"))
+		c.RequireGuard("guard", c.ScopeFunc(dm), "empty message rejected", callsKey("builtin:len"), paramN(0))
 	}
 	c.Floor("panicreach", 3)
 	c.Floor("guard", 5)
@@ -143,10 +143,9 @@ func hashedSinks(f *ssa.Function) (sinks []ssa.Value, witness []ssa.Value) {
 			case *ssa.Call:
 				if cal := staticCallee(t); cal != nil && cal.Pkg != nil && trimMod(cal.Pkg.Pkg.Path()) == "protocol/bc" && len(cal.Name()) > 3 && cal.Name()[:3] == "New" {
 					// the ordinal parameter of the constructors is not hashed
-					ps := cal.Signature.Params()
 					for i, a := range t.Call.Args {
-						if i < ps.Len() && ps.At(i).Name() == "ordinal" {
-							continue
+						if i < len(cal.Params) && storedOnlyIntoField(cal, cal.Params[i], "Ordinal") {
+							continue // the ordinal is not part of the hashed body
 						}
 						sinks = append(sinks, a)
 					}
@@ -362,4 +361,22 @@ func keys(m map[string]bool) []string {
 	}
 	sortStrings(out)
 	return out
+}
+
+// storedOnlyIntoField: every field store of parameter p in f goes to a field named field.
+func storedOnlyIntoField(f *ssa.Function, p *ssa.Parameter, field string) bool {
+	n := 0
+	for _, b := range f.Blocks {
+		for _, in := range b.Instrs {
+			if st, ok := in.(*ssa.Store); ok && st.Val == ssa.Value(p) {
+				if _, fld, isF := fieldOf(st.Addr); isF {
+					if fld != field {
+						return false
+					}
+					n++
+				}
+			}
+		}
+	}
+	return n > 0
 }
